@@ -21,7 +21,20 @@ def run(prop, tier, root=None, evidence_dir=None, quiet=False):
     chk = Check(prop, tier, repo, evidence_dir, quiet)
     chk.explanation = mod.EXPLANATION
     chk.assumptions = list(getattr(mod, "ASSUMPTIONS", []))
-    mod.run(chk, repo)
+    try:
+        mod.run(chk, repo)
+    except AnalysisError as e:
+        # a later rule could not be carried out.  If the rules that did run
+        # already established violations (failed obligations that are not
+        # known findings) those stand; otherwise there is no verdict.
+        open_keys = {k["key"] for k in chk.known()
+                     if k.get("status") == "open"}
+        if not any(not o.ok and o.key not in open_keys
+                   for o in chk.obligations):
+            raise
+        chk.note(f"ANALYSIS-INCOMPLETE: {e} (the remaining rules were not "
+                 f"evaluated; the violations below were established "
+                 f"before)")
     return chk.finish()
 
 
